@@ -273,7 +273,8 @@ func driverMain() int {
 			out := filepath.Join(tmp, fmt.Sprintf("w%d.gob", k))
 			cmd := exec.Command(os.Args[0], "-test.run", "^TestWorker$", "-test.timeout", "0")
 			cmd.Env = append(os.Environ(), "VERIF_MODE=worker", fmt.Sprintf("VERIF_SHARD=%d", k), fmt.Sprintf("VERIF_OF=%d", workers),
-				"VERIF_OUT="+out, fmt.Sprintf("VERIF_DEADLINE=%d", deadline.Unix()), "GOMAXPROCS=1")
+				"VERIF_OUT="+out, fmt.Sprintf("VERIF_DEADLINE=%d", deadline.Unix()), "GOMAXPROCS=1",
+				"VERIF_ALLOC_LOCK="+filepath.Join(tmp, "alloc.lock"))
 			b, err := cmd.CombinedOutput()
 			res[k].log = string(b)
 			if err != nil {
@@ -355,6 +356,7 @@ func driverMain() int {
 		"replay_checks":                 tot.ReplayChecks,
 		"diverged_discarded":            tot.Diverged,
 		"step_caps":                     tot.StepCaps,
+		"max_alloc_bytes_per_execution": tot.MaxAlloc,
 		"abandoned_hung_executions":     tot.Abandoned,
 		"inconclusive":                  inconclusive,
 		"known_findings_hit":            tot.Known,
@@ -404,8 +406,8 @@ func driverMain() int {
 	if !exhaustive {
 		fmt.Printf("not exhaustive: incomplete_scenarios=%d step_caps=%d harness_error=%v\n", len(tot.Incomplete), tot.StepCaps, harnessErr)
 	}
-	fmt.Printf("property=%s tier=%s scenarios=%d/%d executions=%d steps=%d states=%d outcomes=%d conflict-orders=%d exhaustive=%v wall=%.1fs\n",
-		id, tier, tot.ScenariosDone, tot.Scenarios, tot.Executions, tot.Steps, len(tot.States), len(tot.Outcomes), len(tot.Conf), exhaustive, time.Since(start).Seconds())
+	fmt.Printf("property=%s tier=%s scenarios=%d/%d executions=%d steps=%d states=%d outcomes=%d conflict-orders=%d max-alloc=%dK exhaustive=%v wall=%.1fs\n",
+		id, tier, tot.ScenariosDone, tot.Scenarios, tot.Executions, tot.Steps, len(tot.States), len(tot.Outcomes), len(tot.Conf), tot.MaxAlloc>>10, exhaustive, time.Since(start).Seconds())
 	var ks []string
 	for k := range tot.Known {
 		ks = append(ks, k)
@@ -446,6 +448,9 @@ func mergeStats(a, b *Stats) {
 	a.Scenarios += b.Scenarios
 	a.ScenariosDone += b.ScenariosDone
 	a.Executions += b.Executions
+	if b.MaxAlloc > a.MaxAlloc {
+		a.MaxAlloc = b.MaxAlloc
+	}
 	a.Steps += b.Steps
 	a.Diverged += b.Diverged
 	a.ReplayChecks += b.ReplayChecks
